@@ -6,7 +6,7 @@ Mutant = 0
 Quirk = 1
 MaxEvents = 5
 Lists <- ListsA
-HealthVals = {FALSE}
+HealthVals = {FALSE, TRUE}
 INIT Init
 NEXT Next
 CHECK_DEADLOCK FALSE
